@@ -281,33 +281,38 @@ def nondet_lines(src_path):
     scan(src_path)
     return res
 
-def trace_inputs(log_path, src_path):
-    """ordered list of values assigned at nondet call sites in the counterexample trace"""
+def trace_inputs(log_path, src_path, which=0):
+    """ordered list of the values produced at nondet_*() call sites in ONE counterexample trace (bit patterns).
+    Harness style rule: one nondet call per source line, and that line holds nothing else that is assigned."""
     nl = nondet_lines(src_path)
     out = open(log_path, errors='replace').read()
-    i = out.find('Trace for ')
-    if i < 0: i = out.find('Counterexample:')
-    if i < 0: return None
-    vals = []
-    cur = None
-    for ln in out[i:].split('\n'):
+    starts = [m.start() for m in re.finditer(r'^Trace for .*:$', out, re.M)]
+    if not starts:
+        i = out.find('Counterexample:')
+        if i < 0: return None
+        starts = [i]
+    which = min(which, len(starts) - 1)
+    seg = out[starts[which]:(starts[which + 1] if which + 1 < len(starts) else len(out))]
+    vals = []; cur = None; prev_site = None; site_open = False
+    for ln in seg.split('\n'):
+        if ln.startswith('** ') or ln.startswith('Violated property'): break
         m = re.match(r'^State \d+ file (\S+) function (\S+) line (\d+)', ln)
         if m:
-            cur = (os.path.basename(m.group(1)), int(m.group(3))); continue
-        if ln.startswith('Violated property') or ln.startswith('** '):
-            if ln.startswith('** '): break
+            cur = (os.path.basename(m.group(1)), int(m.group(3)))
+            if cur != prev_site: site_open = False
+            prev_site = cur
             continue
-        m = re.match(r'^\s+([^=\s]+)=(.*?)(?: \(([01 ]+|[0-9A-Fa-fx ]+)\))?\s*$', ln)
-        if m and cur in nl:
-            bits = m.group(3)
-            if bits and re.fullmatch(r'[01 ]+', bits):
-                v = int(bits.replace(' ', ''), 2)
-            else:
-                try: v = int(m.group(2).rstrip('ulUL'), 0)
-                except Exception:
-                    continue
-            vals.append(v)
-            cur = None    # one nondet per line
+        if ln.startswith('Assumption:'):
+            prev_site = None; site_open = False; continue
+        m = re.match(r'^\s+([^=\s]+)=(.*?)(?: \(([01 ]+)\))?\s*$', ln)
+        if not m or cur not in nl: continue
+        is_rv = m.group(1).startswith('return_value_nondet_')
+        if site_open and not is_rv: continue            # the copy of the return value into the variable
+        if m.group(3): v = int(m.group(3).replace(' ', ''), 2)
+        else:
+            try: v = int(m.group(2).rstrip('ulUL'), 0)
+            except Exception: continue
+        vals.append(v); site_open = True
     return vals
 
 NATIVE_CFLAGS = ['-O1', '-w', '-DVF_NATIVE', '-I' + os.path.join(VERIF, 'harness')]
